@@ -3,7 +3,7 @@
 //! Random histories over the whole op set; after every step every *new* version is walked deeply
 //! by the independent structural walker (crate::walker), and at the end of the history every
 //! retained version is walked again through a fresh Session.
-use crate::hist::{base_weights, Hist, HistCfg, OpKind};
+use crate::hist::{base_weights, Hist, HistCfg, Loc, OpKind};
 use crate::walker::{check_view, walk, View};
 use serde_json::json;
 use vmon::prng::Rng;
@@ -35,26 +35,33 @@ pub fn run(args: &Args) -> i32 {
     report.finish()
 }
 
-pub struct WalkStats {
-    pub versions: u64,
-    pub interesting: bool,
-}
-
 /// Deep-walk one version; raises violations. Returns whether the version had "interesting" structure.
 pub async fn walk_and_report(
     h: &Hist,
+    loc: &Loc,
+    v: u64,
     ds: &lance::Dataset,
-    what: &str,
+    fresh: bool,
     report: &Report,
     seed: u64,
     case: u64,
 ) -> bool {
     use futures::FutureExt;
+    let what = format!("{}:v{}{}", loc.label(), v, if fresh { " (fresh session)" } else { " (writer session)" });
     let w = match std::panic::AssertUnwindSafe(walk(ds, &h.env.raw(), true)).catch_unwind().await {
         Ok(w) => w,
         Err(p) => {
             let msg = crate::hist::panic_msg(&p);
-            let sig = format!("panic-while-validating-version:{}", msg.split(':').next().unwrap_or("").chars().take(60).collect::<String>());
+            let sig = if msg.contains("rewrite group that was a split of indexed and non-indexed data") {
+                // narrow class: the frag-reuse index written by a deferred-remap compaction cannot be
+                // applied to its own version's index list
+                "load_indices-panics-applying-frag-reuse-index-of-deferred-remap-compaction".to_string()
+            } else {
+                format!(
+                    "panic-while-validating-version:{}",
+                    msg.chars().filter(|c| c.is_ascii_alphanumeric() || *c == ' ').take(60).collect::<String>()
+                )
+            };
             report.violation(
                 &sig,
                 &format!("{what}: panic {msg}"),
@@ -70,8 +77,24 @@ pub async fn walk_and_report(
     report.count("index_segments_checked", w.index_segments);
     report.count("fragments_walked", w.frags.len() as u64);
     for (sig, detail) in &w.problems {
+        let mut sig = sig.clone();
+        if !fresh && (sig == "full-scan-with-rowid-error" || sig == "rowid-scan-rows-ne-physical-minus-deleted") {
+            if let Some(s) = classify_rowid_scan_failure(h, loc, v, &w).await {
+                sig = s;
+            }
+        }
+        sig = narrow_class(&sig, detail, w.view.as_ref());
+        if sig == "rowid-duplicate-among-live-rows" || sig == "rowid-not-below-next_row_id" {
+            // row-id sequences persisted by a rewrite that read them through the session cache:
+            // only classified narrowly when this lineage really reused a fragment id before
+            if let Some(lin) = h.lin.get(loc) {
+                if !lin.reused_fragment_ids().is_empty() && h.cfg.stable_row_ids {
+                    sig = format!("{sig}-in-lineage-with-reused-fragment-ids");
+                }
+            }
+        }
         report.violation(
-            sig,
+            &sig,
             &format!("{what}: {detail}"),
             json!({"seed": seed, "case": case, "config": h.cfg.describe(), "version": what,
                    "problem": detail, "all_problems": w.problems, "ops": h.ops_json(48)}),
@@ -80,12 +103,70 @@ pub async fn walk_and_report(
     w.deletion_files_read > 0 || w.index_segments > 0 || w.frags.iter().any(|f| f.n_files > 1)
 }
 
+/// Narrow, oracle-computed classes for failures whose cause is visible in the observed view.
+pub fn narrow_class(sig: &str, detail: &str, view: Option<&View>) -> String {
+    if sig.ends_with("-panic") && detail.contains("rewrite group that was a split of indexed and non-indexed data") {
+        // the frag-reuse index written by a deferred-remap compaction cannot be applied to the index
+        // list of its own version (load_indices unwraps the error)
+        return "load_indices-panics-applying-frag-reuse-index-of-deferred-remap-compaction".into();
+    }
+    let lacks_field = |only_not_null: bool| -> bool {
+        view.map(|view| {
+            view.frags.iter().any(|f| {
+                view.schema_fields.iter().any(|(id, _)| {
+                    (!only_not_null || view.non_nullable.contains(id))
+                        && !f.files.iter().any(|df| df.fields.contains(id))
+                })
+            })
+        })
+        .unwrap_or(false)
+    };
+    if sig.ends_with("-panic") && detail.contains("is declared as non-nullable but contains null values") && lacks_field(true) {
+        // some fragment stores no data file for a NOT NULL schema field; the reader panics when it
+        // null-fills that column
+        return "reader-panics-null-filling-not-null-column-absent-from-a-fragment".into();
+    }
+    let legacy = view.map(|v| v.frags.iter().any(|f| f.files.iter().any(|df| df.legacy))).unwrap_or(false);
+    if sig.ends_with("-error") && detail.contains("Cannot mix legacy and non-legacy readers") && legacy && lacks_field(false) {
+        // a legacy-format fragment lacks a schema field; the legacy reader cannot be combined with
+        // the null-filling reader
+        return "scan-fails-legacy-fragment-lacks-a-schema-field".into();
+    }
+    sig.to_string()
+}
+
+/// A scan with `_rowid` failed through the long-lived session. If (a) the same scan through a
+/// fresh session succeeds and (b) a fragment id of this version named a *different* fragment
+/// (other data files) in an earlier version of the lineage, the failure is the stale per-fragment
+/// row-id-sequence cache entry: narrow class.
+async fn classify_rowid_scan_failure(h: &Hist, loc: &Loc, v: u64, w: &crate::walker::WalkOut) -> Option<String> {
+    let fresh = h.open_at(loc, Some(v), true).await.ok()?;
+    let mut sc = fresh.scan();
+    sc.with_row_id().scan_in_order(true);
+    let st = sc.try_into_stream().await.ok()?;
+    use futures::TryStreamExt;
+    let bs: Vec<arrow_array::RecordBatch> = st.try_collect().await.ok()?;
+    let n: u64 = bs.iter().map(|b| b.num_rows() as u64).sum();
+    if n != w.live_rows {
+        return None;
+    }
+    let lin = h.lin.get(loc)?;
+    let reused_ids = lin.reused_fragment_ids();
+    let reused = w.frags.iter().any(|f| reused_ids.contains(&f.id));
+    if reused {
+        Some("rowid-scan-fails-only-through-warm-session-after-fragment-id-reuse".into())
+    } else {
+        None
+    }
+}
+
 async fn one_case(seed: u64, case: u64, max_ops: usize, report: &Report) {
     let mut rng = Rng::for_case(seed, case);
     let cfg = HistCfg::random(&mut rng);
     let n_ops = rng.urange(4, max_ops);
     let weights = base_weights();
     let mut h = Hist::mem(rng.clone(), cfg);
+    h.case = case;
     let rec = h.create_table("memory://t0").await;
     if !rec.outcome.is_ok() {
         report.harness_error(&format!("case {case}: create failed: {}", rec.outcome.text()));
@@ -106,11 +187,11 @@ async fn one_case(seed: u64, case: u64, max_ops: usize, report: &Report) {
             let ds = if lin.latest() == v {
                 Ok(lin.head.clone())
             } else {
-                lin.head.checkout_version(v).await
+                lin.head.checkout_version((loc.branch.clone(), Some(v))).await
             };
             match ds {
                 Ok(ds) => {
-                    interesting |= walk_and_report(&h, &ds, &format!("{}:v{}", loc.label(), v), report, seed, case).await;
+                    interesting |= walk_and_report(&h, &loc, v, &ds, false, report, seed, case).await;
                     walked += 1;
                 }
                 Err(e) => {
@@ -129,7 +210,7 @@ async fn one_case(seed: u64, case: u64, max_ops: usize, report: &Report) {
         for v in vs {
             match h.open_at(&loc, Some(v), true).await {
                 Ok(ds) => {
-                    walk_and_report(&h, &ds, &format!("{}:v{} (fresh)", loc.label(), v), report, seed, case).await;
+                    walk_and_report(&h, &loc, v, &ds, true, report, seed, case).await;
                     report.count("versions_rewalked_fresh_session", 1);
                 }
                 Err(e) => {
